@@ -16,8 +16,9 @@
                   ISI lists that satisfy their length assert.
    Everything else (parameters, tuples, index ranges, duplicate-free index lists, GF(256) linear
    algebra, layout) is proved.  "Produced by the encoder" ([enc_produces]) means: a source packet,
-   or a packet of a repair window whose u32 arithmetic does not wrap (Kp + s + n <= 2^32; see
-   C18_example_release_alias for what a wrapped window hands out in mode Release). *)
+   or a packet of any repair window sbe_repair_packets accepts (the repaired function refuses
+   windows beyond the 24-bit id space, so every ESI is below 2^24 and nothing wraps; for the
+   pre-repair behaviour see C18_pinned_refuted). *)
 From Coq Require Import NArith List Bool Lia.
 From RQ Require Import Base.Outcome Base.Ints Base.ListX Spec.Linear Spec.Layout
   Model.Octet Model.FieldFast Model.SysConst Model.Tuple Model.CMatrix Model.Layout Model.Slab
